@@ -387,7 +387,10 @@ func c14R4(p *core.Prog, r *core.Report) {
 			return
 		}
 		n++
-		seen := core.Reach{StopEdge: justify}.FromEntry(trav)
+		seen := core.Reach{StopEdge: justify, StopPhi: func(val ssa.Value, truth bool) bool {
+			// `push := a || b || forced; if push`: the last disjunct arrives as the value of the phi
+			return truth && fieldLoadOf(val, modPath("."), "imageOpt", "forceRecursive")
+		}}.FromEntry(trav)
 		r.Check(!seen[c.(ssa.Instruction)], rule, name, "manifest write justified", p.Pos(c.Pos()), "a path reaches the manifest write without passing mTgt == nil, sDig != target digest or forceRecursive: copying onto an identical image would re-push the manifest")
 	})
 	if n == 0 {
